@@ -122,3 +122,13 @@ Theorem C20_singular_float64_last_columns_partial : forall a b : vecF,
   is_zero64 (detF (M b a a)) = true /\ inverseF (M b a a) = None.
 Proof. exact det_repeated_last_float. Qed.
 Print Assumptions C20_singular_float64_last_columns_partial.
+
+(* a zero column (+0 or -0 entries) in any of the three positions *)
+Theorem C20_singular_float64_zero_column_partial : forall z a b : vecF,
+  let X := sub64 (mul64 (v1 a) (v2 b)) (mul64 (v1 b) (v2 a)) in
+  zeroV z -> finV a -> finV b -> BinarySingleNaN.is_finite X = true ->
+  (is_zero64 (detF (M z a b)) = true /\ inverseF (M z a b) = None) /\
+  (is_zero64 (detF (M a z b)) = true /\ inverseF (M a z b) = None) /\
+  (is_zero64 (detF (M a b z)) = true /\ inverseF (M a b z) = None).
+Proof. exact det_zero_column_float. Qed.
+Print Assumptions C20_singular_float64_zero_column_partial.
